@@ -81,14 +81,34 @@ def mulw(w):
     return '(' + out + ')'
 
 
+# Group loops, one job per constant width (see contracts/bitpack.ovl for why).  All were violated before
+# /repo d3d9d9d (partial final group touched a full group: over-read / over-write); validated on a copy
+# with that commit reverted (w03, w08 fail) and on stride / size / width-0 breakages (w00, w01, w03).
+# *_OK: widths seen `ok` on the repaired tree; the others stay wip until they have been seen to close.
+UNPACK32_OK = {0, 1, 3, 7, 8, 13, 32}
+PACK32_OK = {0, 1, 3, 7, 8, 32}
+UNPACK32_QUICK = {0, 1, 3, 8, 32}
+PACK32_QUICK = {0, 1, 3, 8}
 for w in range(0, 33):
     d = ['CQV_BW_LO=%d' % w, 'CQV_BW_HI=%d' % w, 'CQV_MULW(x)=' + mulw(w)]
-    JOBS.append(dict(name='c08_bitunpack_32_w%02d' % w, props=['C08', 'C11'], entry='h_bitunpack_32', enforce='carquet_bitunpack_32', replayer=RP_U,
-                     replace=['carquet_bitunpack8_32', 'carquet_bitpack8_32'], min_loop_obligations=2, defines=d, timeout=240, backend=['sat', 'cadical'],
-                     tier='quick' if w in (0, 3, 8, 32) else 'thorough', wip=True, note='FINDING F2: partial final group reads a full bit_width bytes (needs only ceil(rem*w/8)); CE count=1: heap over-read, replay/direct/bitpack_unpack32.c; ok on the proposed fix (/tmp/bitpack/proposed_fix_bitpack32.diff) for w in 0,3,8,32; w=0 is ok on the real tree', est_s=60, **G))
-    JOBS.append(dict(name='c11_bitpack_32_w%02d' % w, props=['C11', 'C08'], entry='h_bitpack_32', enforce='carquet_bitpack_32', replayer=RP_P,
-                     replace=['carquet_bitunpack8_32', 'carquet_bitpack8_32'], min_loop_obligations=2, defines=d, timeout=240, backend=['sat', 'cadical'],
-                     tier='quick' if w in (0, 3, 8, 32) else 'thorough', wip=True, note='FINDING F2b: partial final group writes a full bit_width bytes but reports ceil(rem*w/8); CE count=1: heap over-write, replay/direct/bitpack_pack32.c; ok on the proposed fix for w in 0,3,8,32; w=0 is ok on the real tree', est_s=60, **G))
+    GL = dict(replace=['carquet_bitunpack8_32', 'carquet_bitpack8_32'], min_loop_obligations=2, defines=d,
+              backend=['sat', 'cadical'], est_s=90)
+    JOBS.append(dict(name='c08_bitunpack_32_w%02d' % w, props=['C08', 'C11'], entry='h_bitunpack_32', enforce='carquet_bitunpack_32',
+                     replayer=RP_U, tier='quick' if w in UNPACK32_QUICK else 'thorough', timeout=240 if w in UNPACK32_QUICK else 900,
+                     wip=w not in UNPACK32_OK, note='' if w in UNPACK32_OK else 'not yet seen to close on the repaired tree', **GL, **G))
+    JOBS.append(dict(name='c11_bitpack_32_w%02d' % w, props=['C11', 'C08'], entry='h_bitpack_32', enforce='carquet_bitpack_32',
+                     replayer=RP_P, tier='quick' if w in PACK32_QUICK else 'thorough', timeout=240 if w in PACK32_QUICK else 900,
+                     wip=w not in PACK32_OK, note='' if w in PACK32_OK else 'not yet seen to close on the repaired tree', **GL, **G))
+
+# ---- C11/C12 sequence level: real pack_32 -> unpack_32 and the spec encoder/decoder over the whole stream,
+# every count 0..15 (no / one whole group + every partial group size), one job per width; bounded in count only
+for w in range(0, 33):
+    JOBS.append(dict(
+        name='c11_seq_roundtrip_w%02d' % w, props=['C11', 'C12'], harness='harness/C11/bitpack.c', entry='h_seq_roundtrip',
+        defines=['CQV_W=%d' % w, 'CQV_SEQ_MAX=15', 'CQV_MEMSET_EXACT=64', 'CQV_MEMCPY_EXACT=32'], unwind=66, loop_contracts=False,
+        level='bounded', bound='count <= 15 values (all values, every count 0..15 incl. every partial final group size); width == %d' % w,
+        functions=['carquet_bitpack_32', 'carquet_bitunpack_32', 'carquet_bitpack8_32', 'carquet_bitunpack8_32'],
+        tier='quick' if w in (0, 1, 3, 8, 13, 32) else 'thorough', wip=True, est_s=60, **SRC))
 
 # ---- C11/C12: varint (ULEB128) and zigzag in endian.h; bit writer -> bit reader ---------------------
 V = dict(harness='harness/C11/bitpack.c', loop_contracts=False, **SRC)
@@ -107,7 +127,7 @@ JOBS += [
                        vars=dict((x, x) for x in ['pa', 'pb', 'v', 'na', 'nb', 'k'])),
          functions=['carquet_bit_writer_init', 'carquet_bit_writer_write_bits', 'carquet_bit_writer_flush', 'flush_buffer',
                     'carquet_bit_writer_bytes_written', 'carquet_bit_reader_init', 'carquet_bit_reader_read_bits', 'refill_buffer'],
-         wip=True, note='FINDING F3: the writer flushes only at >= 56 buffered bits, so a write of k bits with 64-k < buffered <= 55 shifts value bits out of the 64-bit buffer (CE 29+12 bits buffered, k=24); write_bits64 of > 32 bits loses bits whenever the buffer is not empty; replay/direct/bitpack_bitrw.c, /tmp/bitpack/demo_bitrw64.c', est_s=60, **V),
+         wip=False, tier='thorough', est_s=160, **V),
     # same harness with the second prefix write disabled: at most 32 bits buffered before the write under test
     dict(name='c11_bitrw32_le32_buffered', prop='C11', entry='h_bitrw', unwind=14, defines=['CQV_RW_NB_MAX=0'], level='bounded',
          bound='at most 32 bits buffered in the writer before the k-bit write (k <= 32); all values, all alignments 0..32',
@@ -118,5 +138,5 @@ JOBS += [
          wip=False, est_s=30, **V),
     dict(name='c11_bitrw64', prop='C11', entry='h_bitrw64', unwind=14,
          functions=['carquet_bit_writer_write_bits64', 'carquet_bit_reader_read_bits64'],
-         wip=True, note='FINDING F3: the writer flushes only at >= 56 buffered bits, so a write of k bits with 64-k < buffered <= 55 shifts value bits out of the 64-bit buffer (CE 29+12 bits buffered, k=24); write_bits64 of > 32 bits loses bits whenever the buffer is not empty; replay/direct/bitpack_bitrw.c, /tmp/bitpack/demo_bitrw64.c', est_s=60, **V),
+         wip=False, est_s=15, **V),
 ]
